@@ -116,6 +116,13 @@ CLAIMED = {
         'Necessary conditions; the post-conditions are not executed against the validator.',
    note='Trusted: clang AST/CFG; the documented definition of "empty" in model.h.',
    ref='DESIGN.md section 4, C19'),
+ 'C20': dict(
+   technique='static analysis: path rule on issue levels, null-state rules, dataflow rule on user-supplied dependencies, paired-update rule on the analysis loop state, ordering rules on the code generator',
+   text='The three external-variable diagnostics are messages on every path; null external variables / variables are refused or skipped; user-supplied dependencies are translated to their primary variable before they are stored; '
+        'the pass counter and the NLA-mode flag of the analysis loop advance together; generated code emits all dependencies before an equation, removes it from the work list before recursing and reads external values only through the callback string. '
+        'Necessary conditions; which variables become external, NLA pruning and run-time values are not decided.',
+   note='Trusted: clang AST/CFG. The paired-update rule (A1) is specific to the present shape of the analysis loop: if the loop is restructured its anchors vanish (exit 2). One crash defect (null external variable) was repaired.',
+   ref='DESIGN.md section 4, C20'),
 }
 
 NOT_YET = {}
